@@ -825,6 +825,16 @@ func (e *Exec) strSplit(s, sep *StrV, n int) Value {
 		}
 	}
 	e.stub("model:strings.Split(<=" + fmt.Sprint(maxParts) + " parts)")
+	// the same string split again on the same path decomposes the same way: reuse the parts instead of
+	// making the solver rediscover (or refute) the decomposition
+	memoKey := fmt.Sprintf("split#%s#%s#%d", s.T, sep.T, n)
+	if s.C == nil {
+		if v, ok := e.lazyMemo[memoKey]; ok {
+			old := v.(*ArrayV)
+			cp := &ArrayV{E: append([]Value{}, old.E...)}
+			return &SliceV{O: e.newObj(cp, "split"), Len: cbv(uint64(len(cp.E)), 64), Cap: len(cp.E)}
+		}
+	}
 	var parts []Value
 	rest := s
 	for {
@@ -863,6 +873,9 @@ func (e *Exec) strSplit(s, sep *StrV, n int) Value {
 		rest = &StrV{T: tn}
 	}
 	arr := &ArrayV{E: parts}
+	if s.C == nil {
+		e.lazyMemo[memoKey] = &ArrayV{E: append([]Value{}, parts...)}
+	}
 	return &SliceV{O: e.newObj(arr, "split"), Len: cbv(uint64(len(parts)), 64), Cap: len(parts)}
 }
 
